@@ -122,4 +122,9 @@ PROPS = {
         'rule': "every shipped revision x relaxation on/off x hostUsers unset/true/false on generated pods; frame conditions checked relationally on the real code and against the model. "
                 "distinct_nontrivial = (pod, control) pairs where the relaxation actually flipped a denial",
     },
+    'C20': {
+        'level_text': "Theorem C20_fixtures_agree: every distinct published fixture (level, revision signature of the version, control, pass/fail, pod), re-extracted from package test on every run into Psa/Fixtures/F*.lean, satisfies fixtureOk -- pass fixtures allowed, fail fixtures rejected by the named control or its overrider, after the modelled API defaulting -- by kernel evaluation of the whole finite table (16 chunks). The real evaluator is run on every one of the ~3800 fixtures at its own level and version, the serialized YAML is decoded and compared semantically with the generator's pod, and the file set is compared.",
+        'level_note': "Trusted: Lean kernel; harness (projection of the fixture pods into Lean terms, checked by the differential run on the same fixtures); the one API-server defaulting rule modelled (a volume without a source becomes an emptyDir) -- the defaulting code lives in k8s.io/kubernetes, outside this repository.",
+        'rule': "all fixtures of all levels x versions v1.0..newest x controls from the in-memory generators (through the verif hook) and from test/testdata; thorough: the newest version's fixtures also at newest+1, newest+2, latest. distinct_nontrivial = distinct (level, signature, control, kind, pod) obligations",
+    },
 }
